@@ -10,6 +10,15 @@ from itertools import combinations
 from hypothesis import strategies as st
 
 
+class Tag:
+    """an annotation value that compares by identity"""
+    def __init__(self, v):
+        self.v = v
+
+    def __repr__(self):
+        return f"<Tag {self.v}>"
+
+
 def motif_edges(kind, vs):
     if kind in ("clique", "split4"):
         return [tuple(p) for p in combinations(vs, 2)]
@@ -138,6 +147,9 @@ def build_graph(case, graph_cls=None):
             G.nodes[v][NN.JOINT_DEGREE] = np.array(jds[v])
         else:
             G.nodes[v][NN.JOINT_DEGREE] = jds[v]
+        if case.get("tagged"):
+            # further vertex annotations may be arbitrary objects (compared by identity)
+            G.nodes[v]["owner"] = Tag(v)
     return G, jds
 
 
